@@ -16,6 +16,7 @@ Grey (spec leaves the reaction open; either verdict allowed, but an accepted mes
   G1 HTTP/1.0 + Transfer-Encoding   G2 framing fields inside trailers   G3 Host syntax / Host vs target
   G4 obs-text in target             G5 fragment in target               G6 transfer codings before a final chunked
   G7 absolute-form / authority-form authorities that are not plain reg-name[:port]
+  G8 Content-Length with more than 18 digits
 """
 
 from __future__ import annotations
@@ -375,7 +376,11 @@ def read_request(s: bytes, pos: int) -> Msg:
         v = cl[0]
         if not v or not all(c in DIG for c in v):
             raise Reject("cl-syntax", pos, repr(v[:30]))
-        length = int(v)
+        if len(v) > 18:
+            # more digits than any body this side of the universe: rejecting outright and waiting for the body are
+            # both acceptable reactions (G8)
+            msg.grey.append("G8-huge-content-length")
+        length = int(v) if len(v) < 4000 else 10**30
     ctoks = _conn_tokens(msg)
     if b"close" in ctoks:
         msg.close = True
